@@ -429,6 +429,38 @@ pub fn run_c06(r: &mut Report) {
         r.case("expiry-after-earlier-calls", json!({"earlier_calls": earlier, "earlier_results_ok": format!("{:?}", before), "earlier_calls_before_expiry": in_time}), "Err (expired meanwhile)",
                match &res { Ok(v) => verdict(v), Err(p) => format!("panic: {}", p) }, matches!(&res, Ok(v) if v.is_err()));
     }
+    // offset notation, systematically: every hour of two days x fifteen offsets (so that the local reading falls on the previous,
+    // the same and the next date) - the document is read as the very instant it states (independent of the clock), and an instant
+    // one hour in the past / future is rejected / accepted in every notation
+    {
+        use chrono::{Duration, TimeZone, Utc};
+        let offsets: [i32; 15] = [-12 * 3600, -11 * 3600 - 1800, -8 * 3600, -5 * 3600 - 2700, -3600, -1800, 0, 1800, 3600, 5 * 3600 + 1800, 8 * 3600, 9 * 3600, 12 * 3600 + 2700, 13 * 3600, 14 * 3600];
+        let (lay0, d) = simple(&[&o1], 30);
+        let base = serde_json::to_value(&lay0).unwrap();
+        let mut bad: Vec<String> = vec![]; let mut n = 0;
+        let start = Utc.with_ymd_and_hms(2031, 2, 28, 0, 0, 0).unwrap();
+        for h in 0..48 { for off in offsets {
+            let instant = start + Duration::hours(h) + Duration::minutes(7);
+            let text = instant.with_timezone(&chrono::FixedOffset::east_opt(off).unwrap()).to_rfc3339();
+            let mut v = base.clone(); v["signed"]["expires"] = json!(text);
+            n += 1;
+            match serde_json::from_str::<Metablock>(&v.to_string()).map(|m| m.metadata) {
+                Ok(MetadataWrapper::Layout(l)) => if l.expires != instant && bad.len() < 6 { bad.push(format!("{} read as {}", text, l.expires.to_rfc3339())); },
+                other => if bad.len() < 6 { bad.push(format!("{} not read: {:?}", text, other.map(|_| ()).map_err(|e| e.to_string()))); },
+            }
+        } }
+        for (secs, expect) in [(-3600i64, false), (3600, true)] { for off in offsets {
+            let instant = Utc::now() + Duration::seconds(secs);
+            let text = instant.with_timezone(&chrono::FixedOffset::east_opt(off).unwrap()).to_rfc3339();
+            let mut v = base.clone(); v["signed"]["expires"] = json!(text);
+            n += 1;
+            if let Ok(MetadataWrapper::Layout(l)) = serde_json::from_str::<Metablock>(&v.to_string()).map(|m| m.metadata) {
+                let res = no_panic(|| in_toto_verify(&signed_layout(&l, &[&o1]), owner_keys(&[&o1]), d.path().to_str().unwrap(), None).is_ok());
+                if res != Ok(expect) && bad.len() < 6 { bad.push(format!("expiry {} ({:+}s from now): {:?}", text, secs, res)); }
+            } else if bad.len() < 6 { bad.push(format!("{} not read", text)); }
+        } }
+        r.case("expiry-in-every-offset-notation", json!({"documents": n}), "read as the stated instant; past rejected, future accepted", format!("{:?}", bad), bad.is_empty());
+    }
     // offset notation: an instant in the past written with a +14:00 offset whose local date is in the future
     let past = chrono::Utc::now() - chrono::Duration::hours(1);
     let with_offset = past.with_timezone(&chrono::FixedOffset::east_opt(14 * 3600).unwrap()).to_rfc3339();
@@ -526,6 +558,32 @@ pub fn run_c04(r: &mut Report) {
         let ok = match &res { Ok(v) => v.is_ok() == c.expect && (v.is_err() || v.as_ref().unwrap() == &c.mb.metadata), Err(_) => false };
         r.case(c.id, json!({"threshold": c.t, "keys": c.keys.len(), "signatures": c.mb.signatures.len()}),
                if c.expect { "Ok(metadata)" } else { "Err" }, format!("{:?}", res.map(|v| v.map(|_| "Ok").map_err(|e| e.to_string()))), ok);
+    }
+    // authorised keys READ FROM DOCUMENTS that declare an identifier of their own (`keyid` member): the declaration has no say - the
+    // same material declared under an alias is the same key, and a signature repeated under the alias does not raise the count
+    {
+        let genuine = sign(&[&k1]);
+        let g = serde_json::to_value(&genuine.signatures[0]).unwrap();
+        let own = serde_json::to_value(k1.public()).unwrap();
+        let alias_id = "ab".repeat(32);
+        let mut aliased_doc = own.clone(); aliased_doc["keyid"] = json!(alias_id);
+        let mut own_doc = own.clone(); own_doc["keyid"] = g["keyid"].clone();
+        let parse = |v: &serde_json::Value| serde_json::from_str::<PublicKey>(&v.to_string());
+        match (parse(&own_doc), parse(&aliased_doc)) {
+            (Ok(k_own), Ok(k_alias)) => {
+                let mut m = genuine.clone();
+                m.signatures.push(serde_json::from_value(json!({"keyid": alias_id, "sig": g["sig"]})).unwrap());
+                for (what, keys, t, expect) in [("own + alias declared, signature under both ids, t=2", vec![k_own.clone(), k_alias.clone()], 2u32, false),
+                                                ("own + alias declared, signature under both ids, t=1", vec![k_own.clone(), k_alias.clone()], 1, true),
+                                                ("alias declared only, t=1", vec![k_alias.clone()], 1, true),
+                                                ("alias declared + another key, t=2", vec![k_alias.clone(), k2.public().clone()], 2, false)] {
+                    let res = no_panic(|| m.verify(t, keys.iter()).is_ok());
+                    r.case("keys-read-from-documents-declaring-their-own-id", json!({"scenario": what}), if expect { "Ok" } else { "Err" }, format!("{:?} (parsed ids: {:?}, {:?})", res, k_own.key_id(), k_alias.key_id()), res == Ok(expect));
+                }
+            }
+            // a reader may refuse a key document whose declared id is not the key's own
+            (a, b) => r.case("keys-read-from-documents-declaring-their-own-id", json!({"scenario": "parse"}), "both parse, or the aliased one is refused", format!("{:?} / {:?}", a.as_ref().map(|_| ()).map_err(|e| e.to_string()), b.as_ref().map(|_| ()).map_err(|e| e.to_string())), a.is_ok()),
+        }
     }
     // the same key material under its other identifier (imported from PKCS#8 / from the raw pair: the hash-algorithm list, and so the
     // id, differs) is ANOTHER key: its signature is not a signature of the authorised flavour and never adds to the count
